@@ -2,8 +2,35 @@ from props import job
 
 PROP = dict(
     level="exploration",
-    rule=("TBD"),
-    assumptions=[],
+    technique="property-based (rapid): exact-integer reference for the fee schedule; "
+              "validity predicate on every transaction the real TxPublisher hands to a stub wallet",
+    rule=("Three generators. (1) FeeFunction: (relay fee, ceiling incl. below relay, conf target 0..50000 "
+          "biased to 0..12 and 1000..1012, estimator {fixed|slope|error|below relay|above ceiling|mixed}, "
+          "starting-rate option) then a drawn walk of 1..60 Increment / IncreaseFeeRate(ct) steps "
+          "(one block, skips of 2..1200 heights, jump to <=3 remaining, repeated and out-of-order targets). "
+          "Non-trivial = the walk skips >=2 heights, or climbs from a start strictly below the ceiling up to it. "
+          "(2) Publisher: 1..2 BumpRequests on one real TxPublisher (1..24 real input.Input values of 14 kinds "
+          "incl. CSV, CLTV, second-level inputs with required outputs, wallet top-ups sized around the dust "
+          "limit; Budget as a rate class x weight; MaxFeeRate 253..2.5M sat/kw; deadline -3..+1200 blocks; "
+          "starting rate none / carried / above budget ceiling / above max), a drawn sequence of wallet "
+          "answers (nil, ErrInsufficientFee, ErrMempoolMinFeeNotMet, ErrMempoolFee, ErrMinRelayFeeNotMet, "
+          "ErrBackendVersion, ErrUnimplemented, ErrMissingInputs, other) and a walk of 2..16 block beats with "
+          "skipped heights and spend notifications. Non-trivial = at least one fee-related (RBF) rejection and "
+          "at least one publication. (3) Aggregator: 1..10 offered inputs with per-input budget / deadline / "
+          "starting rate / immediate / exclusive group and 0..4 wallet utxos through the real "
+          "BudgetAggregator.ClusterInputs -> BudgetInputSet (NeedWalletInput/AddWalletInputs) -> BumpRequest as "
+          "UtxoSweeper.sweep builds it -> the same publisher walk; failed sets are re-offered once with the "
+          "publisher-reported starting rate, some inputs dropped, and re-clustered. Non-trivial = a publication "
+          "from a multi-input set, a set with a wallet top-up, or after an RBF rejection. "
+          "Distinct = distinct fingerprint of the generated parameters."),
+    assumptions=[
+        "fee rates are measured against the BIP-141 upper-bound weight (per-witness-type bounds published by package input, one change output of the delivery script), which is how lnd defines the rate of a sweep; the serialized transaction can be lighter (shorter signatures, no change output)",
+        "when the change would be dust it is, as documented in prepareSweepTx, added to the fee: for a transaction without change output the fee-rate bound is relaxed by dust_limit(change script)-1 sat (fee <= budget is still enforced exactly)",
+        "a block beat is delivered by calling TxPublisher.processRecords after storing the height and waiting on the publisher's wait group (what monitor() does per beat); chainio.BeatConsumer plumbing is not exercised",
+        "no AuxSweeper (no extra outputs / extra budget), no unconfirmed-parent (CPFP) inputs, signatures are fixed-size dummies (witness content is not validated, only its presence)",
+        "required outputs handed directly to the publisher are not dust (the aggregator filters them; that filter is checked in part 3)",
+        "known findings C18:start-above-ceiling and C18:budget-rate-rounded-up are excluded by construction while listed as known",
+    ],
     jobs=dict(
         quick=[
             job("sweep", "^TestVerifC18RefWeight$", ["TestVerifC18RefWeight"], 1, shards=1),
